@@ -42,6 +42,16 @@ CHECKS.update({
     "C16": _coll("Panic-point enumerator: for every callback-calling operation, every callback index (predicate, key fn, Clone, Drop, iterator step) as the panic point, with and without follow-up use; after unwinding CollTrace requires: no id dropped twice (now or later), no dropped/moved-out id reachable in any container, no duplicate ids, caller-held values not dropped; leaks allowed.", "6/C16"),
     "C17": _coll("Box programs (new_in, drop, into_inner, leak, into_raw/from_raw round trip, from_iter_in, Vec->boxed slice, Debug forwarding) on bumpalo and std Box twins validated against Coll!Sem; BoxDropReleasesNoMemory checks that no global-allocator free and no accounting change happens at Box drop.", "6/C17"),
 })
+CHECKS["C14"] = dict(category="model_checking", design_ref="6/C14",
+    text=("Every program runs on bumpalo::collections::String and std::string::String; TLC validates both traces against Str!Sem: text, return values, "
+          "panic/no-panic for every byte index (boundary or not) and every range form incl. usize::MAX over texts of 1-4-byte chars, valid UTF-8 after every call, "
+          "capacity; decoders from_utf8 / from_utf8_lossy_in / from_utf16_in against TLA+ transcriptions of Unicode Table 3-7 (maximal subparts) and surrogate pairing "
+          "on all class-representative byte strings up to length 3 (4 thorough), structured corruptions and random ones."),
+    note=("Trusted: TLC + Json/IOUtils; Str.tla (validated against std on every program and input: a std disagreement is a tool error). "
+          "Bounded texts (<= 3 chars + appended), decoder inputs by byte class."),
+    technique="TLA+ reference semantics + transcribed decoders + TLC trace validation of twin (bumpalo/std) executions")
+ENGINES.append(dict(name="tlc-str", path="spec/Str.tla spec/StrTrace.tla", serves_properties=["C14", "C16"],
+    kind_free_text="TLA+ reference semantics of String and of the UTF-8/UTF-16 decoders; TLC trace validation of twin executions"))
 ENGINES.append(dict(name="tlc-coll", path="spec/Coll.tla spec/CollTrace.tla", serves_properties=["C13", "C15", "C16", "C17"],
     kind_free_text="TLA+ reference semantics of Vec/Box over element identities; TLC trace validation of twin executions"))
 NOT_APPLICABLE = {}
